@@ -110,3 +110,79 @@ func (p *Prog) escRewriteObligations(tags []string) []*Obligation {
 	}
 	return obls
 }
+
+// esc:<func>#format-is-constant : the format of every fmt.Sprintf / Fprintf / Printf / Errorf in the generator is a constant
+// (a literal, a constant expression, or a local initialised with one); text derived from the profile only ever appears as an
+// argument, so a percent sign in it is never read as a verb.
+func (p *Prog) escFormatObligations(tags []string) []*Obligation {
+	var obls []*Obligation
+	for _, n := range p.Order {
+		fi := p.Funcs[n]
+		if fi.Pkg.Types.Name() != "generator" || fi.Body() == nil || strings.HasSuffix(fi.File, "_test.go") {
+			continue
+		}
+		info := fi.Pkg.TypesInfo
+		constLocal := map[types.Object]bool{}
+		assigned := map[types.Object]int{}
+		ast.Inspect(fi.Body(), func(nd ast.Node) bool {
+			if as, ok := nd.(*ast.AssignStmt); ok && len(as.Lhs) == len(as.Rhs) {
+				for i, l := range as.Lhs {
+					if id, ok := l.(*ast.Ident); ok {
+						o := info.Defs[id]
+						if o == nil {
+							o = info.Uses[id]
+						}
+						if o != nil {
+							assigned[o]++
+							if tv, ok := info.Types[as.Rhs[i]]; ok && tv.Value != nil {
+								constLocal[o] = true
+							} else {
+								constLocal[o] = false
+							}
+						}
+					}
+				}
+			}
+			return true
+		})
+		var bad, seen []string
+		ast.Inspect(fi.Body(), func(nd ast.Node) bool {
+			c, ok := nd.(*ast.CallExpr)
+			if !ok {
+				return true
+			}
+			fn := externalCallee(info, c)
+			if fn == nil || fn.Pkg() == nil || fn.Pkg().Path() != "fmt" {
+				return true
+			}
+			fmtIdx := -1
+			switch fn.Name() {
+			case "Sprintf", "Printf", "Errorf":
+				fmtIdx = 0
+			case "Fprintf":
+				fmtIdx = 1
+			}
+			if fmtIdx < 0 || fmtIdx >= len(c.Args) {
+				return true
+			}
+			a := ast.Unparen(c.Args[fmtIdx])
+			seen = append(seen, p.pos(c))
+			if tv, ok := info.Types[a]; ok && tv.Value != nil {
+				return true
+			}
+			if id, ok := a.(*ast.Ident); ok {
+				if o := info.Uses[id]; o != nil && constLocal[o] && assigned[o] == 1 {
+					return true
+				}
+			}
+			bad = append(bad, fmt.Sprintf("%s at %s: the format is not a constant (%s); text of the profile inside it would be read as formatting verbs", fn.Name(), p.pos(c), exprString(a)))
+			return true
+		})
+		if len(seen) == 0 {
+			continue
+		}
+		obls = append(obls, analysisObl("esc:"+n+"#format-is-constant", "esc", tags, len(bad) == 0,
+			fmt.Sprintf("the format of each of the %d fmt calls is a constant", len(seen)), p.pos(fi.Body()), strings.Join(bad, "\n"), n))
+	}
+	return obls
+}
